@@ -239,7 +239,11 @@ def load_check(name, case, rec):
         step = fem.Step([body], ramp={track: np.array(ramp)}, boundaries=bounds)
         mode = "biaxial"
         rec.label("biaxial-both-faces" if not symb[a2] else "biaxial-symmetric")
-    job = fem.CharacteristicCurve([step], boundary=track)
+    # the reaction is taken from the residual of the last Newton iterate or (items given) from the items' own force vectors
+    jkw = {"items": [body]} if case["ramp"] and int(round(abs(case["ramp"][0]) * 1e4)) % 2 else {}
+    if jkw:
+        rec.label("curve-from-item-forces")
+    job = fem.CharacteristicCurve([step], boundary=track, **jkw)
     try:
         job.evaluate(tol=1e-10)
     except ValueError:
@@ -357,7 +361,60 @@ def view_check(name, case, rec):
         rec.close("curve:" + label.split(" ")[0], dev, 1e-7, {"material": case["mat"]["name"]})
 
 
+def vhist_strategy(name, tier):
+    peaks = st.lists(fl(1.1, 2.2), min_size=1, max_size=3)
+    return st.fixed_dictionaries({"mu": fl(0.5, 2), "bulkratio": fl(2, 20), "r": fl(1.5, 4), "m": fl(0.3, 1.5), "beta": fl(0.0, 0.4), "peaks": peaks,
+                                  "num": st.integers(3, 6), "case": st.sampled_from(["ux", "ps", "bx"]), "incompressible": st.booleans()})
+
+
+def vhist_check(name, case, rec):
+    """material-level curve of a pseudo-elastic (history) material along a cyclic stretch path (one load case, as documented):
+    primary loading follows the base material, un-/reloading is softened by eta(W, Wmax) with the running maximum of W"""
+    fem = import_felupe()
+    from scipy.special import erf
+
+    base = fem.NeoHooke(mu=case["mu"], bulk=case["mu"] * case["bulkratio"])
+    um = fem.OgdenRoxburgh(base, r=case["r"], m=case["m"], beta=case["beta"])
+    path = [1.0]
+    for pk in case["peaks"]:
+        path += [pk, 1.0]
+    lam = np.asarray(fem.math.linsteps(path, num=case["num"]), float)
+    kw = {"ux": None, "ps": None, "bx": None}
+    kw[case["case"]] = lam
+    inc = case["incompressible"]
+    if inc:
+        base = fem.NeoHooke(mu=case["mu"])
+        um = fem.OgdenRoxburgh(base, r=case["r"], m=case["m"], beta=case["beta"])
+        data = fem.ViewMaterialIncompressible(um, **kw).evaluate()
+        rec.label("incompressible-view")
+    else:
+        data = fem.ViewMaterial(um, **kw).evaluate()
+    rec.nontrivial = len(case["peaks"]) >= 2
+    if not rec.require("one-load-case", len(data) == 1, len(data)):
+        return
+    got_l, got_P, label = data[0]
+    mode = {"ux": "uniaxial", "ps": "planar", "bx": "biaxial"}[case["case"]]
+    ref, wmax = [], 0.0
+    for l in lam:
+        if inc:
+            s_ = {"uniaxial": [l, l**-0.5, l**-0.5], "planar": [l, 1.0, 1 / l], "biaxial": [l, l, l**-2.0]}[mode]
+        else:
+            s_ = solve_transverse(base, mode, l, l) if mode == "biaxial" else solve_transverse(base, mode, l)
+        F = np.diag(s_).reshape(3, 3, 1, 1)
+        W = float(np.asarray(base.function([F, None])[0]).ravel()[0])
+        wmax = max(wmax, W)
+        eta = 1 - erf((wmax - W) / (case["m"] + case["beta"] * wmax)) / case["r"]
+        Pd = eta * P_diag(base, s_)
+        ref.append(Pd[0, 0] - s_[2] / s_[0] * Pd[2, 2] if inc else Pd[0, 0])
+    ref = np.array(ref)
+    sc = max(float(np.abs(ref).max()), 1e-9)
+    rec.require("stretches-returned", np.asarray(got_l).shape == lam.shape and np.allclose(got_l, lam))
+    rec.close("history-curve:" + mode, float(np.abs(np.asarray(got_P) - ref).max()) / sc if np.asarray(got_P).shape == ref.shape else float("inf"), 1e-7,
+              {"peaks": case["peaks"]})
+
+
 FAMILIES = [
+    Family("view-history", ["ogden-roxburgh"], vhist_check, strategy=vhist_strategy, n={"quick": 8, "thorough": 200}, chunk=4),
     Family("patch", PATCH, patch_check, strategy=patch_strategy, n={"quick": 6, "thorough": 150}, chunk=6, weight=3),
     Family("loadcase", LOAD, load_check, strategy=load_strategy, n={"quick": 8, "thorough": 200}, chunk=4, weight=4),
     Family("view", VIEW, view_check, strategy=view_strategy, n={"quick": 10, "thorough": 150}, chunk=10),
